@@ -136,6 +136,26 @@ def pinned_sched_cases():
                 c["pct"] = [3, 200]
             out.append((c, {"targets": targets, "labels": True, "K": False, "streams": streams,
                             "strategy": strat, "abandoned": [], "pinned": "%s-ends-first" % early}))
+    # a descriptor in ERROR (poll(2) says POLLERR and nothing else; the read then fails with EIO): xpoll must hand it
+    # on as XPOLLERR and the loop must call the handler for it (`revents & (XPOLLREAD|XPOLLERR)`) -- otherwise the
+    # loop spins on the descriptor for ever.  The handler prints its diagnostic, closes the descriptor, and everything
+    # read before -- the unterminated tail included -- is still relayed (C05.read_error_keeps_what_was_read).
+    for which, seed in (("out", 3), ("err", 4)):
+        targets = [b"e1", b"e2"]
+        hosts, streams = [], {}
+        for i, t in enumerate(targets):
+            o_payload = t + b" line 1\n" + t + b" out tail"
+            e_payload = t + b" err 1\n" + t + b" err tail"
+            h = {"name": t.decode(), "out": [[0, hexs(o_payload)]], "err": [[0, hexs(e_payload)]]}
+            if i == 0:
+                h[which] = h[which] + [[0, "ERR"]]
+            hosts.append(h)
+            streams[(i, "o")] = o_payload
+            streams[(i, "e")] = e_payload
+        c = {"fanout": 2, "hosts": hosts, "seed": seed, "yield": "all", "inline": 0, "budget": 20000,
+             "opts": {"labels": 1, "sopt": 1, "K": 0}, "strategy": "uniform", "tickrate": 0}
+        out.append((c, {"targets": targets, "labels": True, "K": False, "streams": streams, "strategy": "uniform",
+                        "abandoned": [0], "pinned": "pollerr-on-%s" % which}))
     return out
 
 
